@@ -12,7 +12,10 @@ CLAIMS = {
                  "_dump_holder, _restore_holder hands the variable's holder, for every period the original held (dated or eternal), "
                  "an array equal to the original - with the real OnDiskStorage.put / restore / get and Holder.create_disk_storage "
                  "executed inside. One genuine defect (restored group count) was repaired by a fix: commit."),
-        "note": ("The numpy.save/load round trip is assumed per dtype (validated natively on every run; object dtype - string "
+        "note": ("dump_simulation / restore_simulation: every population and holder dumped once to the right place, a non-empty directory refused; "
+                 "every population restored once from __entities__, every variable directory once, on systems with zero, one or two group "
+                 "entities (one genuine defect repaired: a system without group entity could not be restored). "
+                 "The numpy.save/load round trip is assumed per dtype (validated natively on every run; object dtype - string "
                  "variables - is known not to load without pickle and is outside the claim) and periods.period(str(p)) == p is "
                  "assumed from C05. Bounded: a holder with two stored periods; the orchestration in dump_simulation / "
                  "restore_simulation (directory checks, iteration over variables) is not under contract. 'Calculations return the same' "
@@ -70,7 +73,7 @@ CLAIMS = {
         "note": ("float('inf') enters as an unspecified real constant above every finite threshold (only comparisons with it are "
                  "meaningful; stated assumption); to_average / to_marginal are proved for finite thresholds 0 <= t_0 < t_1 < ...; the "
                  "real round trip additionally runs on a stated grid of scales and bases as a bounded cross-check, labelled bounded in "
-                 "the evidence. Combination is proved for the "
+                 "the evidence. helpers.combine_tax_scales: proved for groups of three members (marginal-rate scales or not). Combination is proved for the "
                  "marginal-rate function; tax = integral of the marginal rate is mathematics taken as known. helpers."
                  "combine_tax_scales and rounding options are not decided. Two genuine defects were repaired by fix: commits "
                  "(combine_bracket below the first threshold; to_average with a non-zero first threshold / one bracket)."),
@@ -136,8 +139,10 @@ CLAIMS = {
                  "exactly the stored periods the period contains under every storage setting."),
         "note": ("Partial by design: order independence without self-dependency is an argument over the _calculate contract, and the "
                  "closing whole-history clause of the statement (every readable value equals what a fresh simulation would compute) "
-                 "is NOT decided by any contract here - both are listed under not_decided in the evidence. Stack shapes are "
-                 "enumerated up to 3 / 5 frames (periods symbolic)."),
+                 "is NOT decided by any contract here - both are listed under not_decided in the evidence. _check_for_cycle is proved "
+                 "for an evaluation stack of any length (symbolic frames, any max_spiral_loops) besides the enumerated shapes; the "
+                 "marking loop of invalidate_spiral_variables on enumerated stack shapes of up to 5 frames (periods symbolic). "
+                 "_cast_formula_result, get_projector_from_shortcut and the ADD / DIVIDE frame clause carry the order-independence part."),
         "technique": "contract-based deductive verification (symbolic execution of the real source with recording call-site contracts + SMT)",
         "design_ref": "DESIGN.md section 4 C02",
     },
